@@ -308,8 +308,8 @@ def run_case(case, scratch: Path | None = None):
     signal.setitimer(signal.ITIMER_REAL, float(case.get('timeout', TIMEOUT)))
     try:
         r = run_case_inner(case, root)
-    except Timeout:
-        r = dict(kind='hang')
+    except Timeout as ex:
+        r = dict(kind='hang', where=innermost_frame(ex))      # the call site the implementation was busy in
     except RecursionError as ex:
         r = dict(kind='crash', exc='RecursionError', where=innermost_frame(ex), msg='')
     except BaseException as ex:
